@@ -156,6 +156,13 @@ def sh(cmd, cwd=None, env=None, timeout=3600):
     return p.returncode, p.stdout
 
 
+def stable_hash(text):
+    """a hash that does not change from process to process (Python's str hash is salted): every random
+    choice of a check derives from VERIF_SEED alone, so a run replays exactly"""
+    import zlib
+    return zlib.crc32(text.encode("utf-8", "replace")) & 0xFFFFFF
+
+
 def build_harness(feature=None):
     """Rebuild the harness (and with it cc6502) from /repo's working tree, hooks on."""
     tdir = "target_a26" if feature else "target"
